@@ -1,6 +1,6 @@
 """props2.py -- workloads of C02, C04, C06, C07, C08, C09, C10, C11, C12, C15 - C20."""
 import itertools, random, math
-from harness import gen
+from harness import gen, impl
 from harness.impl import tok, list_s, idx_tok
 from harness.props import (prop, Prop, build_lines, complexes, NAME_SCHEMES, merge_stats, history_workload)
 
@@ -766,6 +766,26 @@ class C18(Prop):
             for pre in (['new a'], ['new a', 'add a [ ] sGONE -', 'del a sGONE']):
                 nn = rnd.randint(3, 6) if gk == 'ring' else rnd.randint(0, 3)
                 scripts.append(pre + call('a', gk, nn) + ['snap a'])
+        # targets whose names are library-generated but sparse, in a copy (the copy numbers afresh):
+        # generated names must step around the ones that are there
+        for i in range(12 if tier == 'quick' else 200):
+            g0 = rnd.choice(['ring', 'skeleton', 'simplex'])
+            n0 = rnd.randint(4, 6) if g0 == 'ring' else rnd.randint(2, 3)
+            lines = ['gen %s a %d - -' % (g0, n0)]
+            w_ = impl.ImplWorld()
+            for l in lines: w_.exec(l)
+            pts0 = list(w_.vars['a'].simplicesOfOrder(0))
+            for p_ in rnd.sample(pts0, rnd.randint(1, max(1, len(pts0) - 2))):
+                lines.append('del a %s' % tok(p_))
+            for p_ in [x for x in pts0 if ('del a %s' % tok(x)) not in lines][:2]:
+                lines.append('setattr a %s sweight i%d' % (tok(p_), rnd.randint(1, 9)))
+            lines.append('copy b a ?')
+            for j in range(rnd.randint(1, 3)):
+                gk = rnd.choice(['simplex', 'void', 'skeleton', 'ring'])
+                nn = rnd.randint(3, 5) if gk == 'ring' else rnd.randint(0, 3)
+                lines += call('b', gk, nn)
+            lines += ['snap b', 'check wf b']
+            scripts.append(lines)
         # calls without attributes, the earlier top simplex annotated in between
         for k in range(0, 4):
             lines = call('a', 'simplex', k, id='sT1') + ['setattr a sT1 scolour i1'] + call('a', 'simplex', rnd.randint(0, 3), id='sT2') + \
